@@ -154,6 +154,12 @@ class World:
             return "ok"
         app.set_default(digest.check_digest(realm, required)(protected),
                         state.METHOD_ALL)
+        if World.built % 3 == 0:
+            # an application that gives every request a default identity
+            # first: the authenticated user name must replace it
+            def default_identity(req):
+                req.user = "anonymous"
+            app.add_before_response(default_identity)
         self.app = app
 
     def request(self, method, path, query, agent, header, t_us):
